@@ -260,7 +260,9 @@ def shard(args):
                         objs["job"].data_stored = SourceValue(rng.choice([120.25, 80]) * u.kB)
                         ops.append("edit job.data_stored")
                 else:
-                    spec = specgen.gen_safe_spec(rng, realsys.unit_info, allow_delete=False)
+                    # (every other case: storage durations of a few hours, written in any unit, so that data expires within
+                    # the modelled period — a duration misread at load then shows in the recomputed results)
+                    spec = specgen.gen_safe_spec(rng, realsys.unit_info, allow_delete=False, allow_dumps=(i % 2 == 1))
                     if i % 3 == 1:
                         # the legal corners made certain: a step without jobs, a repeated step / device, a spare server …
                         sp2 = specgen.plant_corners(specgen.unshare_jobs(spec), rng)
